@@ -374,7 +374,7 @@ class Simplex:
         assert isinstance(ineq, InEquation)
         self.original.append(ineq)
         if isinstance(ineq, GreaterEq):
-            if len(ineq.jars) == 1: # a * x >= b
+            if len(ineq.jars) == 1 and ineq.jars[0].coeff != 0: # a * x >= b
                 jar = ineq.jars[0]
                 coeff, var_name, lower_bound = jar.coeff, jar.var, ineq.lower_bound
                 self.input_vars.add(var_name)
